@@ -126,9 +126,42 @@ def mk_low_rank_root(sign, padded):
 
     it.call_contracts["power_iteration"] = power_iteration_contract
     rank = r if sign > 0 else -r
-    packed, metrics = m._low_rank_root(A, p, rank, padding_start=ps)
+    eps = spec.fresh_real("ridge_epsilon")
+    ctx.assume(eps > 0)
+    n_red = len(ctx.ghost.setdefault("reduce_calls", []))
+    packed, metrics = m._low_rank_root(A, p, rank, ridge_epsilon=eps, relative_matrix_epsilon=False, padding_start=ps)
     V, ie, c, hz = m._low_rank_unpack(packed, rank)
     w, u = ctx.ghost["last_eigh"]
+    # --- root values: whatever eigenvalues eigh returns (round-off may put them slightly BELOW the ridge), a direction
+    # that is not padding has the root value max(lambda, ridge)^(-1/p) > 0; only exactly-zero (padding) eigenvalues get 0
+    real_dim0 = ps if padded else d
+
+    def e_masked(j):
+      return w.at((j,)) * sym.ite(d - 1 - j < ps, 1.0, 0.0) if padded else w.at((j,))
+
+    def root_value(j):
+      ej = e_masked(j)
+      return sym.ite(ej == 0, 0.0, sym.spow(sym.smax(ej, eps), -1.0 / p))
+
+    def source(t):   # position t after the flip / roll  ->  ascending eigh index
+      if sign > 0:
+        return d - 1 - t
+      sh = d - real_dim0
+      return sym.ite(t + sh < d, t + sh, t + sh - d)
+
+    kk = sk(ctx, "kr", r)
+    ctx.oblige("_low_rank_root.post.retained root values are max(lambda, ridge)^(-1/p) of the retained eigenvalues (0 only for an exactly-zero eigenvalue)",
+               ie.at((kk,)) == root_value(source(kk)), detail=f"sign={sign} padded={padded}")
+    sums = [r_ for r_ in ctx.ghost["reduce_calls"][n_red:] if r_.kind == "sum"]
+    ctx.require("_low_rank_root.structure: one sum (over the non-retained root values)", len(sums) >= 1)
+    tsum = sums[-1]
+    tt = spec.fresh_int("t_avg")
+    ctx.assume(sym.sand(tt >= 0, tt < d - r))
+    ctx.oblige("_low_rank_root.post.the averaged root values are those of ALL non-retained directions, each max(lambda, ridge)^(-1/p) "
+               "(0 only for exactly-zero, i.e. padding, eigenvalues)", tsum.x.at((tt,)) == root_value(source(r + tt)),
+               detail=f"sign={sign} padded={padded}")
+    ctx.oblige("_low_rank_root.post.constant = sum of the non-retained root values / (unpadded dimension - |r|)",
+               (c.item() if isinstance(c, T.Tensor) else c) * sym.ite(real_dim0 - r > 0, real_dim0 - r, 1) == tsum.value(()), detail=f"sign={sign} padded={padded}")
     k = sk(ctx, "k", r)
     i = sk(ctx, "i", d)
     real_dim = ps if padded else d
